@@ -445,6 +445,13 @@ def cert_variants(seed):
     return variants
 
 
+def _warm_compose(c):
+    try:
+        c.compose()
+    except Exception:  # noqa
+        pass
+
+
 def check_inplace_histories(acc, cls, o, w):
     """The certificate reached by editing a principal / option / extension in place must compose to the bytes of
     the equal certificate built by construction (whose layout check_against_reference judges)."""
@@ -458,7 +465,7 @@ def check_inplace_histories(acc, cls, o, w):
         try:
             a = rebuilt()
             exp = bytes(a.compose())
-            b = inplace()
+            b = inplace(_warm_compose)
         except Exception:  # noqa - not constructible / not composable / frozen
             continue
         holder = tag.split('.')[0].split('[')[0]
